@@ -631,7 +631,9 @@ func TestC14FreeRunning(t *testing.T) {
 					r, side = rb, "B"
 				}
 				depth := rapid.IntRange(0, 3).Draw(rt, "depth")
-				deadline := rapid.IntRange(0, 5).Draw(rt, "deadline") == 0
+				dlKind := rapid.IntRange(0, 5).Draw(rt, "deadline")
+				deadline := dlKind == 0 // already over when the call starts
+				generous := dlKind == 1 // a second: never reached
 				i := i
 				wg.Add(1)
 				go func() {
@@ -640,6 +642,11 @@ func TestC14FreeRunning(t *testing.T) {
 					if deadline {
 						var cancel context.CancelFunc
 						ctx, cancel = context.WithTimeout(ctx, time.Nanosecond)
+						defer cancel()
+					}
+					if generous {
+						var cancel context.CancelFunc
+						ctx, cancel = context.WithTimeout(ctx, time.Second)
 						defer cancel()
 					}
 					tok := fmt.Sprintf("%s%d", side, i)
@@ -673,6 +680,21 @@ func TestC14FreeRunning(t *testing.T) {
 					}
 				}
 				svc.mu.Unlock()
+			}
+			// the connection stays usable after those deadlines have passed: one more call in each direction
+			time.Sleep(3 * time.Second)
+			for _, late := range []struct {
+				r    *jsonrpc2.Remote
+				side string
+			}{{ra, "A"}, {rb, "B"}} {
+				ctx, cancel := context.WithTimeout(context.Background(), 30*time.Second)
+				var out string
+				tok := "late" + late.side
+				err := late.r.Call(ctx, &out, "test_echo", tok, 1)
+				cancel()
+				if err != nil || out != expectedEcho(tok, 1) {
+					c14Fatalf(rt, "3s after the first batch (whose calls had deadlines of 1ns, 1s or none) a call from side %s with a nested call-back returned %q, err=%v; want %q", late.side, out, err, expectedEcho(tok, 1))
+				}
 			}
 			ra.Close()
 			rb.Close()
